@@ -11,7 +11,7 @@ check("C11",
   "of all four real solvers (Lawson-Hanson on normal equations and on the least-squares system) on SPD systems n<=12 (random/degenerate/ties/badly scaled, dyadic data) "
   "and sparse systems n<=400 (KKT residual only).",
   "Partial/tested only: nnls_normal_block, nnls_normal_block_updown, nnls_lawson_hanson have no Coq model (oracle on outputs only); unreachability of the model's "
-  "InnerFuel exit (termination of `while (!feasible)`) is counted per run, not proved; the max_iter exit returns x >= 0 but nothing more (Example, not observed on "
-  "generated systems). Trusted: Coq kernel; CHOLMOD/SPQR replaced by one exact verified reduced solve in the model (their rounding is covered by the oracle's "
+  "InnerFuel exit (termination of `while (!feasible)`) is counted per run, not proved; the max_iter exit returns x >= 0 but nothing more: OPEN known finding C11:block3-maxiter-exit-not-kkt "
+  "(the real solver cycles on a degenerate system until max_iter and returns a non-optimal vector; corpus w7; the exact model converges). Trusted: Coq kernel; CHOLMOD/SPQR replaced by one exact verified reduced solve in the model (their rounding is covered by the oracle's "
   "condition-number-scaled tolerance only); IEEE arithmetic of the solvers tested not proved; python fractions oracle; the differential tie and the translator's pattern list.",
   "Coq proofs over an abstract ordered field (Qc instance executed) + translator + differential correspondence against exact-rational oracle", "§4 C11")
